@@ -293,10 +293,13 @@ def verify_unit(unit, digit, mode, canary=False, use_cache=True):
         if d['level'] != 'error':
             continue
         it = item_at(d['line'])
-        if it is None:
+        if it is None or it.kind in ('raw', 'spec'):
+            # e.g. a failing postcondition of a trait impl method is reported at the `ensures` of the
+            # trait declaration (a raw item); the function is named by a secondary span
             for l in d['all_lines']:
-                it = item_at(l)
-                if it is not None:
+                it2 = item_at(l)
+                if it2 is not None and it2.kind not in ('raw', 'spec'):
+                    it = it2
                     break
         cls = classify(d['message'])
         rec = dict(item=it.key if it else None, unit=it.entry.unit if it else None, message=d['message'], cls=cls, line=d['line'], rendered=d['rendered'], labels=d['labels'])
